@@ -806,6 +806,7 @@ func scenC10(c *ctx) {
 		c.rec.Emit(doValidateOCRA(k("vo"), sec, code, sa, in))
 		c.rec.Emit(doInputValidate(k("iv"), cf, in))
 		c.rec.Emit(doSuiteValidate(k("sv"), cf, i%3))
+		c.rec.Emit(doSuiteGetters(k("getters"), cf))
 		if i%3 == 0 {
 			nm := c.weirdString()
 			if len(nm) > 2000 {
@@ -857,6 +858,29 @@ func min(a, b int) int {
 		return a
 	}
 	return b
+}
+
+// Config() / String() of hand-built and zero-valued suites
+func doSuiteGetters(scn string, cf Cfg) Event {
+	e := newEvent("SuiteGetters", scn)
+	e.X = map[string]any{"cfg": cf}
+	invoke(&e, func() result {
+		sc := cf.lib()
+		_ = sc.Config()
+		_ = sc.String()
+		rs := otp.RawSuite{SuiteConfig: sc}
+		_ = rs.Config()
+		_ = rs.String()
+		_ = rs.Validate()
+		var zero otp.RawSuite
+		_, _ = zero.Config(), zero.String()
+		_ = otp.Digits(cf.Digits & 0xff).Int()
+		_ = otp.IsKnownSuite(string(cf.Raw))
+		_ = otp.SuiteConfigFromRaws(string(cf.Raw))
+		_ = otp.ListSuites()
+		return result{}
+	})
+	return e
 }
 
 // RandomSecret without stream substitution (C10: only "returns normally")
